@@ -335,10 +335,10 @@ func censusOf(p *Prog, f *ssa.Function) map[[2]string]int {
 		eachInstr(g, func(i ssa.Instruction) {
 			switch x := i.(type) {
 			case *ssa.BinOp:
-				for _, o := range []ssa.Value{x.X, x.Y} {
+				for oi, o := range []ssa.Value{x.X, x.Y} {
 					for _, c := range constsOf(o) {
 						if c.Value != nil && c.Value.Kind() == constant.Int {
-							out[[2]string{x.Op.String(), c.Value.ExactString()}]++
+							out[[2]string{censusOp(x.Op, oi == 0), c.Value.ExactString()}]++
 						}
 					}
 				}
@@ -384,6 +384,25 @@ func censusOf(p *Prog, f *ssa.Function) map[[2]string]int {
 	}
 	visit(f)
 	return out
+}
+
+// censusOp: the operation under which a constant is recorded. Comparisons are recorded by the boundary they draw, not by
+// their spelling: == and != are one class; with the constant on the right, < and >= (its negation) are one class, <= and
+// > the other; a constant on the left is mirrored first.
+func censusOp(op token.Token, constOnLeft bool) string {
+	switch op {
+	case token.EQL, token.NEQ:
+		return "=="
+	case token.LSS, token.LEQ, token.GTR, token.GEQ:
+		if constOnLeft {
+			op = mirrorOp(op)
+		}
+		if op == token.LSS || op == token.GEQ {
+			return "<"
+		}
+		return "<="
+	}
+	return op.String()
 }
 
 func resolveAnchor(p *Prog, anchor string) *ssa.Function {
@@ -845,13 +864,27 @@ func ruleWire(p *Prog, r *RuleResult) {
 			continue // renamed constant: its value is checked above, its comparisons cannot be matched by name
 		}
 		got := curCmps[wc.Pkg+"."+wc.Name]
-		for _, op := range sortedKeys(wc.Ops) {
+		// what matters is on which side of the boundary the threshold itself falls: `x < T` and `x >= T` (= !(x < T))
+		// put T on the upper side, `x <= T` and `x > T` on the lower side; a negated spelling is the same boundary
+		class := func(m map[string]int, ops ...string) int {
+			t := 0
+			for _, o := range ops {
+				t += m[o]
+			}
+			return t
+		}
+		for _, cl := range [][]string{{"<", ">="}, {"<=", ">"}} {
+			want := class(wc.Ops, cl...)
+			if want == 0 {
+				continue
+			}
 			n++
-			key := fmt.Sprintf("cmp.%s.%s#%s", wc.Pkg, wc.Name, op)
-			if got[op] >= wc.Ops[op] {
-				r.ok(fmt.Sprintf("%s x%d", key, got[op]), p.Pos(byPkg[wc.Pkg][wc.Name].Pos()))
+			have := class(got, cl...)
+			key := fmt.Sprintf("cmp.%s.%s#%s", wc.Pkg, wc.Name, cl[0])
+			if have >= want {
+				r.ok(fmt.Sprintf("%s x%d", key, have), p.Pos(byPkg[wc.Pkg][wc.Name].Pos()))
 			} else {
-				r.fail(key, p.Pos(byPkg[wc.Pkg][wc.Name].Pos()), fmt.Sprintf("wire threshold %s.%s is compared with `%s` %d time(s); bitstream format 6 has %d (now used with %v): a boundary moved by one changes which layout both sides choose for inputs exactly at the threshold, so reference streams of that size no longer decode", wc.Pkg, wc.Name, op, got[op], wc.Ops[op], got))
+				r.fail(key, p.Pos(byPkg[wc.Pkg][wc.Name].Pos()), fmt.Sprintf("wire threshold %s.%s is compared with `%s` (or its negation `%s`) %d time(s); bitstream format 6 has %d (now used with %v): a boundary moved by one changes which layout both sides choose for inputs exactly at the threshold, so reference streams of that size no longer decode", wc.Pkg, wc.Name, cl[0], cl[1], have, want, got))
 			}
 		}
 	}
